@@ -425,6 +425,20 @@ def check(ctx, rep, upto=None):
     rep.ob('R4', 'is_set/no-cell-access', not acc_i, ib.where(), 'is_set() only loads the state')
     distinct = len({E, K, new[2]}) == 3
     rep.ob('R4', 'constants-distinct', distinct, '', 'INITIAL=%s, LOADING=%s, COMPLETE=%s are pairwise distinct' % (E, new[2], K))
+    # who sets: within the crate the holder's set() is reached from the public set_global_default() only - no read path
+    # (a macro helper, a lazy "default" installer) may install a client, or `is_set` turns true without anybody having set one
+    setters = []
+    for b in mac.all_bodies:
+        if b.file.endswith('/test.rs') or '::tests::' in b.path or b.path in allowed:
+            continue
+        for bi, t in b.calls():
+            if t.get('resolved') == m['set'].path or strip_generics(t.get('callee_full', '')).endswith('SingletonHolder::set'):
+                setters.append(b)
+    pub_set = 'cadence_macros::state::set_global_default'
+    region_set = private_region(mac, mac.bodies[pub_set]) | {pub_set} if pub_set in mac.bodies else set()
+    oks = bool(setters) and all(strip_generics(b.path) in region_set or b.path in region_set for b in setters)
+    rep.ob('R4', 'set-reached-only-from-set_global_default', oks, setters[0].where() if setters else '',
+           'within the crate only set_global_default() calls the holder\'s set()' if oks else 'the holder\'s set() is called from %s' % sorted(set(b.short() for b in setters)))
     if upto == 'frame':
         return
     # ---- R5 bounds
